@@ -25,6 +25,11 @@ def insertAt (l : List (Ent V)) (i : Nat) (e : Ent V) : List (Ent V) := l.take i
 
 abbrev LSt (V : Type) := List (Ent V)
 
+/-- `new(capacity)`: the capacity hint is not observable -/
+def LSt.new : LSt V := []
+/-- `clear`: `Vec::clear` -/
+def LSt.clear (_ : LSt V) : LSt V := []
+
 def LSt.insert (l : LSt V) (e : Ent V) : LSt V :=
   match bsearch (fun x => compare x.key e.key) l 0 with
   | .ok i => insertAt l i e
